@@ -241,6 +241,10 @@ def handle_gen(rng, tier):
         if tls_on:
             cfg = tuple(cfg) + (True,)
         spec = cfg_spec(cfg)
+        if ci >= len(bcfgs) and ci % 3 == 0:
+            # the memory cache is on; every case asks a question of its own, so every query is a miss whose answer is
+            # stored: the response must be what the cache-less model predicts (storing must not disturb the response)
+            spec += ";C=65536"
         allt = set(cfg[0]) == {"t"}
         share = (n // 3) // len(bcfgs) if ci < len(bcfgs) else (n - n // 3) // max(1, ncfg - len(bcfgs))
         for _ in range(share):
